@@ -88,19 +88,44 @@ fn egraph_path(n: usize, gens: &[P], perms: &[P], order: &[usize], out: &mut Cas
     let r = guard(|| -> Result<u64, (String, String)> {
         let mut eg: EGraph<LSym> = EGraph::default();
         let base = eg.add_expr(RecExpr::parse(&leaf_text(n, &identity(n))).unwrap());
-        for &gi in order {
+        // in every other run a user `w(leaf)` is inserted after the first assertion (inserting a parent enumerates the class's group
+        // at that moment), and membership is observed through the user as well at the end
+        let with_user = order.first().map(|o| o % 2 == 0).unwrap_or(false) ^ (gens.len() % 2 == 0);
+        let mut wbase: Option<AppliedId> = None;
+        let mut nq = 0;
+        let mut sofar: Vec<P> = vec![];
+        for (k, &gi) in order.iter().enumerate() {
             let g = &gens[gi];
             let c = eg.add_expr(RecExpr::parse(&leaf_text(n, g)).unwrap());
             eg.union(&base, &c);
+            sofar.push(g.clone());
+            if with_user && k == 0 {
+                wbase = Some(eg.add_expr(RecExpr::parse(&format!("(w {})", leaf_text(n, &identity(n)))).unwrap()));
+                // the group as it stands after the first assertion, observed before it grows
+                let w1 = closure(n, &sofar);
+                for s in perms {
+                    let c = lookup_rec_expr(&RecExpr::<LSym>::parse(&leaf_text(n, s)).unwrap(), &eg).ok_or(("lookup-none".to_string(), format!("permuted copy {} not represented", leaf_text(n, s))))?;
+                    nq += 1;
+                    if eg.eq(&base, &c) != w1.contains(s) {
+                        return Err(("membership-intermediate".into(), format!("after asserting only {} on {n} slots: eq(leaf, {}) = {} but membership is {}", show(&sofar), leaf_text(n, s), eg.eq(&base, &c), w1.contains(s))));
+                    }
+                }
+            }
         }
         let want = closure(n, gens);
-        let mut nq = 0;
         for s in perms {
             let c = lookup_rec_expr(&RecExpr::<LSym>::parse(&leaf_text(n, s)).unwrap(), &eg).ok_or(("lookup-none".to_string(), format!("permuted copy {} not represented", leaf_text(n, s))))?;
             let got = eg.eq(&base, &c);
             nq += 1;
             if got != want.contains(s) {
                 return Err(("membership".into(), format!("generators {} on {n} slots: eq(leaf, {}) = {got} but membership in the generated group ({} elements) is {}", show(gens), leaf_text(n, s), want.len(), want.contains(s))));
+            }
+            if let Some(wb) = &wbase {
+                let wc = lookup_rec_expr(&RecExpr::<LSym>::parse(&format!("(w {})", leaf_text(n, s))).unwrap(), &eg).ok_or(("lookup-none".to_string(), format!("user of the permuted copy {} not represented", leaf_text(n, s))))?;
+                nq += 1;
+                if eg.eq(wb, &wc) != want.contains(s) {
+                    return Err(("membership-through-user".into(), format!("generators {} on {n} slots (user inserted after the first assertion): eq(w(leaf), w({})) = {} but membership in the generated group is {}", show(gens), leaf_text(n, s), eg.eq(wb, &wc), want.contains(s))));
+                }
             }
         }
         // the progress measure counts the symmetries
@@ -143,54 +168,64 @@ fn direct_path(n: usize, gens: &[P], perms: &[P], split: usize, out: &mut CaseOu
         let sm = |p: &P| -> SlotMap { (0..n).map(|i| (slots[i], slots[p[i] as usize])).collect() };
         let unsm = |m: &SlotMap| -> P { (0..n).map(|i| slots.iter().position(|s| *s == m[slots[i]]).unwrap() as u8).collect() };
         let mut nq = 0u64;
-        // build incrementally: first `split` generators at construction, the rest through add_set one by one
+        // every observable of the group against the brute-force closure of the generators it has been given so far
+        let observe = |g: &VGroup, have: &[P], nq: &mut u64| -> Result<(), (String, String)> {
+            let want = closure(n, have);
+            for s in perms {
+                *nq += 1;
+                if g.contains(&sm(s)) != want.contains(s) {
+                    return Err(("contains".into(), format!("generators {}: contains({s:?}) = {} but brute force says {}", show(have), g.contains(&sm(s)), want.contains(s))));
+                }
+            }
+            let all = g.all_perms();
+            let set: BTreeSet<P> = all.iter().map(&unsm).collect();
+            *nq += 3;
+            if set.len() != all.len() {
+                return Err(("all_perms-duplicates".into(), format!("generators {}: all_perms has {} entries, {} distinct", show(have), all.len(), set.len())));
+            }
+            if set != want {
+                return Err(("all_perms-set".into(), format!("generators {}: all_perms yields {} elements, brute force {}", show(have), set.len(), want.len())));
+            }
+            if g.count() != want.len() {
+                return Err(("count".into(), format!("generators {}: count() = {} but |G| = {}", show(have), g.count(), want.len())));
+            }
+            for i in 0..n {
+                *nq += 1;
+                let o: BTreeSet<u8> = g.orbit(slots[i]).iter().map(|s| slots.iter().position(|x| x == s).unwrap() as u8).collect();
+                if o != orbit(n, have, i as u8) {
+                    return Err(("orbit".into(), format!("generators {}: orbit of slot {i} = {o:?}, brute force {:?}", show(have), orbit(n, have, i as u8))));
+                }
+            }
+            // the generators it reports generate the same group
+            let gg: Vec<P> = g.generators().iter().map(&unsm).collect();
+            *nq += 1;
+            if closure(n, &gg) != want {
+                return Err(("generators".into(), format!("generators {}: reported generators {gg:?} generate a different group", show(have))));
+            }
+            if g.is_trivial() != (want.len() == 1) {
+                return Err(("is_trivial".into(), format!("generators {}: is_trivial = {}", show(have), g.is_trivial())));
+            }
+            Ok(())
+        };
+        // build incrementally: first `split` generators at construction, the rest one by one, alternately through add_set and add;
+        // in every other run the group is observed in full (which enumerates it) before each increment, not only at the end
         let mut g = VGroup::new(&omega, gens[..split].iter().map(&sm).collect());
         let mut have: Vec<P> = gens[..split].to_vec();
-        for x in &gens[split..] {
+        let observe_between = (split + gens.len()) % 2 == 0;
+        for (k, x) in gens[split..].iter().enumerate() {
+            if observe_between {
+                observe(&g, &have, &mut nq).map_err(|(a, b)| (format!("{a}-before-increment"), b))?;
+            }
             let before = closure(n, &have).len();
             have.push(x.clone());
             let after = closure(n, &have).len();
-            let grew = g.add_set(vec![sm(x)]);
+            let (via, grew) = if k % 2 == 0 { ("add_set", g.add_set(vec![sm(x)])) } else { ("add", g.add(sm(x))) };
             nq += 1;
             if grew != (after > before) {
-                return Err(("add_set-growth".into(), format!("adding {x:?} to <{}>: add_set returned {grew}, but the group size goes {before} -> {after}", show(&have[..have.len() - 1]))));
+                return Err((format!("{via}-growth"), format!("adding {x:?} to <{}>: {via} returned {grew}, but the group size goes {before} -> {after}", show(&have[..have.len() - 1]))));
             }
         }
-        let want = closure(n, gens);
-        for s in perms {
-            nq += 1;
-            if g.contains(&sm(s)) != want.contains(s) {
-                return Err(("contains".into(), format!("generators {}: contains({s:?}) = {} but brute force says {}", show(gens), g.contains(&sm(s)), want.contains(s))));
-            }
-        }
-        let all = g.all_perms();
-        let set: BTreeSet<P> = all.iter().map(&unsm).collect();
-        nq += 3;
-        if set.len() != all.len() {
-            return Err(("all_perms-duplicates".into(), format!("generators {}: all_perms has {} entries, {} distinct", show(gens), all.len(), set.len())));
-        }
-        if set != want {
-            return Err(("all_perms-set".into(), format!("generators {}: all_perms yields {} elements, brute force {}", show(gens), set.len(), want.len())));
-        }
-        if g.count() != want.len() {
-            return Err(("count".into(), format!("generators {}: count() = {} but |G| = {}", show(gens), g.count(), want.len())));
-        }
-        for i in 0..n {
-            nq += 1;
-            let o: BTreeSet<u8> = g.orbit(slots[i]).iter().map(|s| slots.iter().position(|x| x == s).unwrap() as u8).collect();
-            if o != orbit(n, gens, i as u8) {
-                return Err(("orbit".into(), format!("generators {}: orbit of slot {i} = {o:?}, brute force {:?}", show(gens), orbit(n, gens, i as u8))));
-            }
-        }
-        // the generators it reports generate the same group
-        let gg: Vec<P> = g.generators().iter().map(&unsm).collect();
-        nq += 1;
-        if closure(n, &gg) != want {
-            return Err(("generators".into(), format!("generators {}: reported generators {gg:?} generate a different group", show(gens))));
-        }
-        if g.is_trivial() != (want.len() == 1) {
-            return Err(("is_trivial".into(), format!("generators {}: is_trivial = {}", show(gens), g.is_trivial())));
-        }
+        observe(&g, gens, &mut nq)?;
         Ok(nq)
     });
     match r {
